@@ -44,6 +44,12 @@ def run(ctx, pid):
         ok2, info2 = chainlib.validate(ctx, rtrace, "Trace_Ledger.tla", "Trace_Ledger.cfg", pred, pid, describe_rel)
         ok = ok and ok2
         rel_stats["model_states"] = rmodel.distinct
+    cstratum = None
+    if pid in ("C04", "C05"):
+        # contracts: blocks with contract transactions executed by the real node, judged by this property's own clauses
+        # (a stratum of the property itself, not a growth module: what it cannot run makes the check exit 2)
+        from props import contract_stratum
+        cstratum = contract_stratum.run(ctx, pid, quick)
     rows = vlib.read_ndjson(trace)
     blocks = [x for x in rows if x.get("ev") == "Block" and not x.get("refused")]
     crafted = [x for x in rows if x.get("ev") == "Crafted"]
@@ -77,7 +83,7 @@ def run(ctx, pid):
            "traces_validated_against_impl": stats.get("histories", 0),
            "blocks": len(blocks), "txs_included": included, "single_tx_blocks": single, "epoch_finishing_blocks": epochs,
            "replay_attempts_crafted": len(crafted), "crafted_by_kind": dict(collections.Counter(x.get("what") for x in crafted)),
-           "relationship_scenarios": rel_stats,
+           "relationship_scenarios": rel_stats, "contract_stratum": cstratum,
            "tx_types_included": sorted({t["type"] for x in blocks for t in (x.get("txs") or [])}),
            "samples": [{k: blocks[len(blocks) // 3].get(k) for k in ("h", "kind", "flags", "proposer", "txs", "epochLen")}],
            "rule": "seeded random histories on real chains (all plain tx types, targets in every relationship to the signer, amounts on the "
@@ -86,7 +92,9 @@ def run(ctx, pid):
                    "iterated from a fresh read-only view and the clauses are evaluated by TLC with exact limb arithmetic"}
     return vlib.finish(ctx, "model_checking", cov, assumptions=[
         "issuance bound per block = BlockReward + FinalCommitteeReward (proposed block) + that sum x epoch length (validation-finished block)",
-        "contract transactions are exercised by C15's driver"])
+        "contract transactions: not in the chain histories; blocks with contract transactions are a stratum of their own (C04 / C05: "
+        "lifecycle edge cover of ContractOps.tla with at most one deviation per operation, judged by Trace_ContractLedger; the proposer "
+        "of those blocks is never a party and none of them finishes a validation); the full contract envelope is C15's"])
 
 
 def describe_rel(clause, row, rows, line):
